@@ -35,6 +35,7 @@ class Ctx:
         self.notes = []
         self.extra = {}
         self.known = common.load_known()
+        self.all_sigs = []   # uncapped (kind, signature, detail, property_fails); dumped on request (VERIF_DUMP_BREAKS)
 
     def rng(self, *tags):
         return common.rng_for(self.seed, self.prop, *tags)
@@ -58,6 +59,7 @@ class Ctx:
             if f.get('property') == self.prop and f.get('signature') == signature:
                 self.known_hits[signature] = self.known_hits.get(signature, 0) + 1
                 return
+        self.all_sigs.append((kind, signature, detail[:300], bool(property_fails)))
         if len(self.breaks) < 200:
             self.breaks.append({'kind': kind, 'signature': signature, 'detail': detail,
                                 'failing_input': failing_input, 'property_fails': bool(property_fails)})
@@ -151,6 +153,10 @@ def run_check(mod, ctx, t0):
             raise
         except Exception as e:
             ctx.notes.append('search raised %s: %s' % (type(e).__name__, e))
+
+    if os.environ.get('VERIF_DUMP_BREAKS'):
+        with open(os.environ['VERIF_DUMP_BREAKS'], 'w', encoding='utf-8') as f:
+            json.dump(ctx.all_sigs, f, ensure_ascii=False, indent=0)
 
     # 5 verdict
     for sig, n in sorted(ctx.known_hits.items()):
